@@ -43,6 +43,17 @@ func echoAnswer(id json.RawMessage, nonce string) []byte {
 	return []byte(fmt.Sprintf(`{"jsonrpc":"2.0","id":%s,"result":{"content":[{"type":"text","text":"echo:%s"}]}}`, string(id), nonce))
 }
 
+// hang blocks like a hung server, but leaves once the parent is gone (a crashed harness must not leave orphans behind).
+func hang() {
+	pp := os.Getppid()
+	for {
+		time.Sleep(200 * time.Millisecond)
+		if os.Getppid() != pp {
+			os.Exit(0)
+		}
+	}
+}
+
 func childMain(raw string) {
 	var sc childScript
 	if err := json.Unmarshal([]byte(raw), &sc); err != nil {
@@ -73,7 +84,7 @@ func childMain(raw string) {
 		var m childReq
 		if err := dec.Decode(&m); err != nil {
 			if sc.Fault == "stall" && acted {
-				select {} // a hung server does not leave because its stdin ended
+				hang() // a hung server does not leave because its stdin ended
 			}
 			return
 		}
@@ -123,7 +134,7 @@ func childMain(raw string) {
 		switch sc.Fault {
 		case "selfkill":
 			syscall.Kill(os.Getpid(), syscall.SIGKILL)
-			select {}
+			hang()
 		case "exit":
 			os.Exit(0)
 		case "closeout":
@@ -135,7 +146,7 @@ func childMain(raw string) {
 			var x json.RawMessage
 			if err := dec.Decode(&x); err != nil {
 				if sc.IgnoreInt {
-					select {}
+					hang()
 				}
 				return
 			}
